@@ -613,7 +613,7 @@ func provTailAppend(r *core.Run) {
 							continue
 						}
 						for _, nm := range pf.Names {
-							if f.True[nm.Name+" == 0"] || f.True["0 == "+nm.Name] {
+							if f.True[nm.Name+" == 0"] || f.True["0 == "+nm.Name] || f.False[nm.Name+" != 0"] || f.False["0 != "+nm.Name] {
 								o.Auto("replaces the implicit UNSPECIFIED entry, under %s == 0", nm.Name)
 								return true
 							}
